@@ -200,6 +200,33 @@ def input_provenance(repo, tier):
 
 
 # ------------------------------------------------------------------------- bounded scope --
+def mhtml_fallback_scope(repo, tier):
+    """BOUNDED: `_extract_from_mhtml` (MIME decoding, ASSUMED by the read_mhtml contract) must hand over the WHOLE text/html part
+    also on its fallback path (archives without a proper header block): multi-line documents with lines starting with `--`
+    (comment end, CSS custom property, decrement) are run through read_mhtml as a non-standard archive."""
+    import json
+    import os
+    import subprocess
+    oid = "C17/mhtml_extractor.py::_extract_from_mhtml/bounded#html-part-of-a-non-standard-archive-is-not-cut-inside-the-document.BOUNDED"
+    req = {"property": "C17", "obligation": oid, "repo": repo, "family": {"fn": "line_start_docs", "only": ["non-standard"]}}
+    try:
+        p = subprocess.run(["/venv/bin/python", os.path.join(os.path.dirname(os.path.dirname(os.path.abspath(__file__))), "replay", "run.py")],
+                           input=json.dumps(req), capture_output=True, text=True, timeout=300, env=dict(os.environ, VERIF_REPO=repo))
+        lines = [l for l in p.stdout.splitlines() if l.startswith("{")]
+        res = json.loads(lines[-1]) if lines else {"error": (p.stderr or p.stdout)[-500:]}
+    except Exception as e:  # noqa
+        res = {"error": str(e)}
+    if "error" in res or "crashed" in str(res.get("note", "")):
+        return {"obligations": [], "undecided": [{"obligation": oid, "why": "native scope could not run: " + str(res.get("error", res.get("note")))[:300]}]}
+    ok = not res.get("reproduced")
+    o = ground_obligation(oid, ok, res.get("note", "") if ok else f"{res.get('target')}: {json.dumps((res.get('inputs') or {}).get('markup'))[:200]} -> {str(res.get('observed'))[:200]}",
+                          "replay/C17.py", kind="bounded", backend="native-replay")
+    o["bounded"] = True
+    o["bound"] = "4 multi-line documents with `--` at a line start, as a header-less archive with one text/html part"
+    return {"obligations": [o]}
+
+
+
 def native_scope(repo, tier):
     """BOUNDED stand-in (DESIGN 2.8) for what stays assumed: html.parser's tokenisation itself, the tree walker / get_text
     (C02), MIME decoding of the MHTML part, the MSG reader around the routing statement.  The replayer's document grammar is
